@@ -1106,6 +1106,12 @@ class TtlString(Suite):
             yield {"mode": "string", "s": "\n" + s}
             yield {"mode": "raw", "triple": False, "s": s + '"'}
             yield {"mode": "raw", "triple": True, "s": s + '"""'}
+        # the part of K2 that is not proved (three-quote form with quotes inside): every string of length <= 6
+        # over quote, backslash, line feed, 'a'
+        for n in range(1, 7):
+            for tup in itertools.product('"\\\na', repeat=n):
+                if "\n" in tup and '"' in tup:
+                    yield {"mode": "string", "s": "".join(tup)}
 
 
 # ---------------------------------------------------------------- graph level: conformance only
